@@ -42,6 +42,41 @@ def run(cmd, timeout=None, cwd=None, input=None, env=None):
     return p.returncode, p.stdout.decode("utf-8", "replace")
 
 
+class Capped:
+    """result of run_capped: stdout/stderr limited to `cap` bytes each (the rest is read and discarded)"""
+    def __init__(self, out, err, rc): self.stdout, self.stderr, self.returncode = out, err, rc
+
+
+def run_capped(cmd, input=b"", timeout=None, cap=1 << 20, env=None, cwd=None):
+    """like subprocess.run(..., capture) but never holds more than `cap` bytes per stream: a program that loops
+    printing would otherwise fill the memory within its time limit.  returncode is "timeout" when the limit
+    was reached (the process is killed)."""
+    import threading
+    p = subprocess.Popen(cmd, stdin=subprocess.PIPE, stdout=subprocess.PIPE, stderr=subprocess.PIPE, env=env, cwd=cwd)
+    bufs = [bytearray(), bytearray()]
+    def drain(f, b):
+        while True:
+            c = f.read(65536)
+            if not c: break
+            if len(b) < cap: b.extend(c[:cap - len(b)])
+    def feed():
+        try:
+            p.stdin.write(input); p.stdin.close()
+        except (BrokenPipeError, OSError, ValueError):
+            try: p.stdin.close()
+            except Exception: pass
+    ts = [threading.Thread(target=drain, args=(p.stdout, bufs[0]), daemon=True),
+          threading.Thread(target=drain, args=(p.stderr, bufs[1]), daemon=True),
+          threading.Thread(target=feed, daemon=True)]
+    for t in ts: t.start()
+    try:
+        rc = p.wait(timeout=timeout)
+    except subprocess.TimeoutExpired:
+        p.kill(); p.wait(); rc = "timeout"
+    for t in ts: t.join(10)
+    return Capped(bytes(bufs[0]), bytes(bufs[1]), rc)
+
+
 # ---------------------------------------------------------------------------------------
 # builds
 # ---------------------------------------------------------------------------------------
@@ -327,7 +362,15 @@ def standard_build(rep, prop, need_binary=False, need_numlib=False):
     ok, log = lake_build([mod])
     if not ok:
         errs = re.findall(r"error: [^\n]*", log)[:6]
-        rep.violation("obligation", {"what": "lake build %s failed" % mod, "errors": errs})
+        v = {"what": "lake build %s failed" % mod, "errors": errs}
+        if ex.get("differs_from_committed"):
+            # a theorem about tables/inventories regenerated from the source no longer checks: say which values moved
+            try:
+                fb = json.load(open(os.path.join(ROOT, "extract", "fallback.json"), encoding="utf-8"))
+                v["regenerated_values_that_changed"] = {k: {"committed": fb.get(k), "from_source_now": ex.get("values", {}).get(k)} for k in ex["differs_from_committed"]}
+            except Exception:
+                v["regenerated_values_that_changed"] = ex["differs_from_committed"]
+        rep.violation("obligation", v)
     okd, logd = lake_build(["hydrv"])
     rep.audit = audit(prop)
     if ok and not rep.audit["ok"]:
